@@ -1,5 +1,5 @@
 """C04 - certificates are valid witnesses and appear exactly when promised (shape + assembly clauses)"""
-from . import dynalloc, accept, provenance, dyn, dyncnf, cli
+from . import dynalloc, accept, provenance, dyn, dyncnf, cli, progress
 
 
 def run(ctx):
@@ -22,6 +22,7 @@ def run(ctx):
     dyncnf.rule_removal_cleans_the_tables(ctx)
     from . import dyn as _dyn
     _dyn.rule_decoders_keep_true_variables(ctx)
+    progress.rule_local_selector_retired(ctx)  # a query clause that outlives its query constrains the searches whose result becomes a certificate
     cli.rule_encoder_selection(ctx)  # DC-PR certificates are complete extensions only if the credulous PR path gets the complete encoder
     ctx.assume("rustc's MIR / borrow checker; summaries of sa/shapes.py (bool/Option/tuple shapes, callee summaries, relational restriction by dominating conditions)")
     return (
